@@ -23,6 +23,7 @@ import Rs1090.Proofs.CprGlobalSpec
 import Rs1090.Proofs.CprMetres
 import Rs1090.Proofs.CprFloat
 import Rs1090.Proofs.IeeeRound
+import Rs1090.Proofs.CprFloatAsm
 namespace Rs1090.Props.C04
 open Rs1090 Rs1090.Model.Cpr Rs1090.Spec.Cpr Rs1090.Proofs.Cpr
 
@@ -460,6 +461,118 @@ example : fJ fl64 ⟨.even, 39848, 83951⟩ ⟨.odd, 21567, 81965⟩ = 8 ∧ fl6
   have : gJ ⟨.even, 39848, 83951⟩ ⟨.odd, 21567, 81965⟩ = 8 := by
     unfold gJ; rw [Proofs.CprFloat.cprMax_eq, Int.floor_eq_iff]; norm_num
   exact ⟨h.trans this, by rw [Proofs.IeeeRound.fl64_one_tenth]; norm_num⟩
+
+/-! ### the f64 argument, ASSEMBLED: the complete float-level `airborne_position` against the exact model
+
+`Proofs/CprFloatAsm.lean`: `fNl fl` — `fn nl` on an f64 latitude against the thresholds AS THE MACHINE HOLDS THEM
+(`fl t` for each decimal literal `t` of the generated ladder: the literal parsed correctly rounded; `lat = -lat`
+exact); `fAirbornePosition fl` — the whole function (`match` on the parities, `j`, the two latitudes and their
+`>= 270` wraps, the `[-90, 90]` test, `nl(lat_even) != nl(lat_odd)`, `latest == even_frame`, `ni`, `m`, `r`, the
+longitude and its `>= 180` wrap) with `fl` after every operation and every comparison made on the f64 values,
+returning `none` exactly where the Rust code returns `None`.  `Margin e o` (`= MarginAt 10⁻⁹ e o`, decidable):
+the EXACT values stay farther than `10⁻⁹`° (0.1 mm) from every point where a comparison on an inexact value
+flips — `lat_even`, `lat_odd` from the 58 transition latitudes of the NL table, `lat_odd` from ±90 and (before
+the wrap) from 270, the two longitudes (before the wrap) from 180.  (`lat_even` is computed exactly: it needs
+no margin at ±90 / 270.) -/
+
+open Rs1090.Proofs.CprFloat (fNl nlFar fAirbornePosition Margin MarginAt)
+
+/-- **`nl` on the f64 latitude, against the rounded literals, returns the model's band** whenever the f64
+    latitude is within `ε` of the exact one and the exact `|lat|` is farther than `ε + 10⁻¹³` from every
+    transition latitude (`10⁻¹³ ≥ 87·2⁻⁵³ + 2⁻¹⁰⁰` bounds the rounding error of a literal) -/
+theorem nl_float_eq_of_far {fl : ℚ → ℚ} (R : Rounding fl) {lat' lat ε : ℚ} (h : |lat' - lat| ≤ ε)
+    (far : nlFar (ε + 1 / 10 ^ 13) lat) : fNl fl lat' = nl lat ∧ (1 ≤ fNl fl lat' ∧ fNl fl lat' ≤ 59) :=
+  ⟨Proofs.CprFloat.fNl_eq_of_far R h far, Proofs.CprFloat.fNl_range lat'⟩
+
+/-- **The complete f64 computation of `airborne_position` returns (almost) what the exact model returns.**
+    For every rounding function satisfying the standard model, every even report `e` and odd report `o` with
+    17-bit fields, BOTH orders of the pair, under the margin hypothesis: the float-level computation returns
+    `None` exactly when the rational model does, and otherwise the two positions differ by at most `10⁻¹¹`
+    degrees on each axis. -/
+theorem airborne_position_f64_close (fl : ℚ → ℚ) (R : Rounding fl) (e o : Msg)
+    (hpe : e.parity = .even) (hpo : o.parity = .odd)
+    (he : e.lat < 131072 ∧ e.lon < 131072) (ho : o.lat < 131072 ∧ o.lon < 131072) (M : Margin e o) :
+    ((fAirbornePosition fl e o = none ↔ airbornePosition e o = .ok none) ∧
+      ∀ q, fAirbornePosition fl e o = some q → ∃ p : Pos, airbornePosition e o = .ok (some p) ∧
+        |q.1 - p.lat| ≤ 1 / 10 ^ 11 ∧ |q.2 - p.lon| ≤ 1 / 10 ^ 11) ∧
+    ((fAirbornePosition fl o e = none ↔ airbornePosition o e = .ok none) ∧
+      ∀ q, fAirbornePosition fl o e = some q → ∃ p : Pos, airbornePosition o e = .ok (some p) ∧
+        |q.1 - p.lat| ≤ 1 / 10 ^ 11 ∧ |q.2 - p.lon| ≤ 1 / 10 ^ 11) :=
+  Proofs.CprFloat.airborne_position_f64_close fl R e o hpe hpo he ho M
+
+/-- `airborne_position_f64_close` for IEEE-754 binary64 round-to-nearest-even, unconditionally in the rounding -/
+theorem airborne_position_ieee_close (e o : Msg)
+    (hpe : e.parity = .even) (hpo : o.parity = .odd)
+    (he : e.lat < 131072 ∧ e.lon < 131072) (ho : o.lat < 131072 ∧ o.lon < 131072) (M : Margin e o) :
+    ((fAirbornePosition fl64 e o = none ↔ airbornePosition e o = .ok none) ∧
+      ∀ q, fAirbornePosition fl64 e o = some q → ∃ p : Pos, airbornePosition e o = .ok (some p) ∧
+        |q.1 - p.lat| ≤ 1 / 10 ^ 11 ∧ |q.2 - p.lon| ≤ 1 / 10 ^ 11) ∧
+    ((fAirbornePosition fl64 o e = none ↔ airbornePosition o e = .ok none) ∧
+      ∀ q, fAirbornePosition fl64 o e = some q → ∃ p : Pos, airbornePosition o e = .ok (some p) ∧
+        |q.1 - p.lat| ≤ 1 / 10 ^ 11 ∧ |q.2 - p.lon| ≤ 1 / 10 ^ 11) :=
+  airborne_position_f64_close fl64 rounding_ieee e o hpe hpo he ho M
+
+/-- **The IEEE-754 computation recovers the encoder's lattice point within `10⁻¹¹` degrees.**  For every rational
+    point with latitude in [-90, 90] whose two recovered latitudes lie in the same NL band (hypothesis of
+    `global_correct`) and whose two reports satisfy the margin: the binary64 computation of `airborne_position`
+    returns a position in both orders, within `10⁻¹¹`° on each axis of `(Rlat₁, norm180 Rlon₁)` resp.
+    `(Rlat₀, norm180 Rlon₀)` — the positions `global_correct` proves for the exact model and
+    `recovered_within_10m` / `global_within_10m` place within 9.629 m of the true point.  `10⁻¹¹`° is at most
+    1.2 µm on the ground (`f64_slack_metres`), against a remaining slack of 0.37 m in the 10 m clause. -/
+theorem global_f64_recovers (lat lon : ℚ) (hlat : -90 ≤ lat ∧ lat ≤ 90)
+    (hnl : NL (rlat 17 0 lat) = NL (rlat 17 1 lat))
+    (M : Margin (report 17 0 lat lon) (report 17 1 lat lon)) :
+    (∃ q, fAirbornePosition fl64 (report 17 0 lat lon) (report 17 1 lat lon) = some q ∧
+      |q.1 - rlat 17 1 lat| ≤ 1 / 10 ^ 11 ∧
+      |q.2 - norm180 (rlon 17 1 (rlat 17 1 lat) lon)| ≤ 1 / 10 ^ 11) ∧
+    (∃ q, fAirbornePosition fl64 (report 17 1 lat lon) (report 17 0 lat lon) = some q ∧
+      |q.1 - rlat 17 0 lat| ≤ 1 / 10 ^ 11 ∧
+      |q.2 - norm180 (rlon 17 0 (rlat 17 0 lat) lon)| ≤ 1 / 10 ^ 11) := by
+  obtain ⟨g1, g2⟩ := global_correct lat lon hlat hnl
+  obtain ⟨s1, s2⟩ := Proofs.CprFloat.airborne_position_f64_some fl64 rounding_ieee
+    (report 17 0 lat lon) (report 17 1 lat lon) (report_parity0 17 lat lon) (report_parity1 17 lat lon)
+    (Proofs.CprFloat.report_fields_lt 17 0 lat lon) (Proofs.CprFloat.report_fields_lt 17 1 lat lon) M
+  obtain ⟨q1, f1, c1, d1⟩ := s1 _ g1
+  obtain ⟨q2, f2, c2, d2⟩ := s2 _ g2
+  exact ⟨⟨q1, f1, c1, d1⟩, ⟨q2, f2, c2, d2⟩⟩
+
+open Rs1090.Proofs.Metres in
+/-- `10⁻¹¹` degrees of arc on the sphere of radius `R_MAX` are at most 1.2 µm (north-south; east-west is shorter
+    by the cosine) -/
+theorem f64_slack_metres : nsM (1 / 10 ^ 11) ≤ 12 / 10 ^ 7 := by
+  have h : |(1 : ℚ) / 10 ^ 11| = 1 / 10 ^ 11 := abs_of_pos (by norm_num)
+  unfold nsM mPerDeg; rw [h]; norm_num
+
+/-- non-vacuity of the margin: the classic pair 8D40621D58C382D690C8AC2863A7 / 8D40621D58C386435CC412692AD6
+    (even `lat_cpr, lon_cpr = 93000, 51372`, odd `74158, 50194`; 52.2572°, 3.9194°) satisfies `Margin`, … -/
+example : Margin ⟨.even, 93000, 51372⟩ ⟨.odd, 74158, 50194⟩ := by decide +kernel
+
+/-- … so the assembled theorem applies to it: the IEEE-754 computation returns a position, in both orders, within
+    `10⁻¹¹`° of the exact model's `(52.26578…, 3.93891…)` (latest = odd) resp. `(52.25720…, 3.91937…)`
+    (latest = even) -/
+example :
+    (∃ q, fAirbornePosition fl64 ⟨.even, 93000, 51372⟩ ⟨.odd, 74158, 50194⟩ = some q ∧
+      |q.1 - 25261515 / 483328| ≤ 1 / 10 ^ 11 ∧ |q.2 - 225873 / 57344| ≤ 1 / 10 ^ 11) ∧
+    (∃ q, fAirbornePosition fl64 ⟨.odd, 74158, 50194⟩ ⟨.even, 93000, 51372⟩ = some q ∧
+      |q.1 - 428091 / 8192| ≤ 1 / 10 ^ 11 ∧ |q.2 - 64215 / 16384| ≤ 1 / 10 ^ 11) := by
+  obtain ⟨s1, s2⟩ := Proofs.CprFloat.airborne_position_f64_some fl64 rounding_ieee
+    ⟨.even, 93000, 51372⟩ ⟨.odd, 74158, 50194⟩ rfl rfl ⟨by decide, by decide⟩ ⟨by decide, by decide⟩
+    (by decide +kernel)
+  have e1 : airbornePosition ⟨.even, 93000, 51372⟩ ⟨.odd, 74158, 50194⟩
+      = .ok (some ⟨(25261515 : Rat) / 483328, (225873 : Rat) / 57344⟩) := by decide +kernel
+  have e2 : airbornePosition ⟨.odd, 74158, 50194⟩ ⟨.even, 93000, 51372⟩
+      = .ok (some ⟨(428091 : Rat) / 8192, (64215 : Rat) / 16384⟩) := by decide +kernel
+  obtain ⟨q1, f1, c1, d1⟩ := s1 _ e1
+  obtain ⟨q2, f2, c2, d2⟩ := s2 _ e2
+  exact ⟨⟨q1, f1, c1, d1⟩, ⟨q2, f2, c2, d2⟩⟩
+
+/-- the repository's first test pair satisfies the margin too -/
+example : Margin ⟨.even, 39848, 83951⟩ ⟨.odd, 21567, 81965⟩ := by decide +kernel
+
+/-- the margin is a real restriction: 87° is an even lattice latitude AND a threshold of the table (`<= 87.0`),
+    so the pair of the point (87°, 0°) does not satisfy it (the theorem is silent there; `87.0` is a binary64
+    value and `lat_even` is exact, so the comparison is in fact decided correctly) -/
+example : ¬ Margin ⟨.even, 65536, 0⟩ ⟨.odd, 33860, 0⟩ := by decide +kernel
 
 /-! ### non-vacuity: the repository's own test pairs, and satisfiable hypotheses -/
 
